@@ -19,6 +19,7 @@ import (
 	"strconv"
 	"strings"
 	"sync"
+	"testing/fstest"
 
 	"github.com/magisterquis/curlrevshell/lib/shellfuncsfile"
 	"github.com/magisterquis/curlrevshell/verifx/ev"
@@ -40,6 +41,8 @@ type c18Case struct {
 	/* LongLine, if not 0, puts a line of that many bytes after the first
 	doc line (a one-line blob inside some function). */
 	LongLine int `json:"long_line,omitempty"`
+	/* Sources, for the Converter.From seam: what was converted. */
+	Sources []string `json:"sources,omitempty"`
 }
 
 func (c c18Case) payload() string {
@@ -363,6 +366,7 @@ func c18(r *ev.Result, tier string) {
 		mu.Unlock()
 		os.RemoveAll(dir)
 	})
+	c18FromSeam(r, base)
 	r.Sample(4, map[string]any{"doc_line": "# TABDOC: '\\''", "class": "breaker-name", "shells": "dash, bash"})
 	r.Sample(4, map[string]any{"doc_line": "# TABDOC: fn $`(", "class": "as-description"})
 	r.Sample(4, map[string]any{"doc_lines": menu[:3], "class": "row-set"})
@@ -371,8 +375,16 @@ func c18(r *ev.Result, tier string) {
 }
 
 func c18Replay(kind string, raw json.RawMessage) int {
+	if "c18from" == kind {
+		fmt.Println("findings of the Converter.From seam are replayed by re-running ./run C18 quick (the enumeration takes a second); the sources are in the artefact")
+		return 2
+	}
 	var c c18Case
 	if err := json.Unmarshal(raw, &c); nil != err {
+		return 2
+	}
+	if "from-seam" == c.Class {
+		fmt.Println("findings of the Converter.From seam are replayed by re-running ./run C18 quick; the sources are named in the artefact")
 		return 2
 	}
 	f, err := shellfuncsfile.GenFuncList(c.payload())
@@ -396,4 +408,99 @@ func c18Replay(kind string, raw json.RawMessage) int {
 	}
 	fmt.Println("not reproduced")
 	return 0
+}
+
+// c18FromSeam checks the listing where the program builds it: appended by
+// Converter.From to what it made of its sources.  Every sequence of <=3
+// sources over a menu (files with and without a filter, with and without a
+// final newline, with a TABDOC line first / last / as a trailing comment, a
+// directory) is converted with and without the listing; the listing must be
+// the only difference, and its rows must be those of the TABDOC lines of the
+// payload it was appended to.
+func c18FromSeam(r *ev.Result, base string) {
+	files := map[string]string{
+		"a.sh":      "# TABDOC: a_sh from a.sh\na_sh() { :; }\n",
+		"b.sh":      "b_sh() { :; }\n# TABDOC: b_sh at the end without newline",
+		"c.txt":     "# TABDOC: c_txt raw file\nc_txt() { :; }\n",
+		"d.txt":     "d_txt() { :; } # TABDOC: not_a_doc trailing comment\n# TABDOC: d_txt last line no newline",
+		"e.txt":     "e_txt() { :; }\nx=1 # TABDOC: nor_this one",
+		"dir/1.sh":  "# TABDOC: one in a directory\none() { :; }",
+		"dir/2.txt": "# TABDOC: two (unfiltered) in a directory\ntwo() { :; }",
+	}
+	mfs := fstest.MapFS{"dir": &fstest.MapFile{Mode: os.ModeDir | 0o755}}
+	for n, c := range files {
+		mfs[n] = &fstest.MapFile{Data: []byte(c), Mode: 0o644}
+	}
+	menu := []string{"a.sh", "b.sh", "c.txt", "d.txt", "e.txt", "dir"}
+	var seqs [][]string
+	var rec func(cur []string)
+	rec = func(cur []string) {
+		if 0 != len(cur) {
+			seqs = append(seqs, append([]string{}, cur...))
+		}
+		if 3 == len(cur) {
+			return
+		}
+		for _, m := range menu {
+			rec(append(cur, m))
+		}
+	}
+	rec(nil)
+	var (
+		cases []c18Case
+		funcs [][]byte
+	)
+	for _, srcs := range seqs {
+		v := func(sig, what string) {
+			r.Violate(ev.Violation{Signature: "from/" + sig, What: fmt.Sprintf("sources %q: %s", srcs, what), Kind: "c18from", Replay: map[string]any{"sources": srcs}})
+		}
+		plain := shellfuncsfile.NewDefaultConverter()
+		plain.FS = mfs
+		p, err := plain.From(srcs...)
+		if nil != err {
+			v("conversion-failed", err.Error())
+			continue
+		}
+		listed := shellfuncsfile.NewDefaultConverter()
+		listed.FS = mfs
+		listed.AddListFunction = true
+		o, err := listed.From(srcs...)
+		if nil != err {
+			v("conversion-failed", err.Error())
+			continue
+		}
+		if !bytes.HasPrefix(o, p) {
+			v("payload-changed-by-listing", fmt.Sprintf("asking for the listing changed the payload itself: %q vs %q", trunc80(string(o)), trunc80(string(p))))
+			continue
+		}
+		fn := bytes.TrimLeft(o[len(p):], "\n")
+		if !bytes.HasPrefix(fn, []byte(shellfuncsfile.ListFuncName+"() {")) {
+			v("listing-not-appended", fmt.Sprintf("what follows the payload is %q", trunc80(string(fn))))
+			continue
+		}
+		/* The reference: the TABDOC lines of the payload as it is. */
+		c := c18Case{Class: "from-seam", Sources: srcs, Lines: []string{}}
+		for _, l := range strings.Split(string(p), "\n") {
+			if strings.HasPrefix(l, shellfuncsfile.DocPrefix) {
+				c.Lines = append(c.Lines, strings.TrimPrefix(l, shellfuncsfile.DocPrefix))
+			}
+		}
+		cases = append(cases, c)
+		funcs = append(funcs, fn)
+	}
+	for _, shell := range []string{"dash", "bash"} {
+		dir := filepath.Join(base, "from-"+shell)
+		os.MkdirAll(dir, 0o755)
+		obs, stderr, err := c18RunBatch(shell, dir, funcs)
+		if nil != err || "" != strings.TrimSpace(stderr) {
+			r.Violate(ev.Violation{Signature: "from/driver", What: fmt.Sprintf("%s could not run the listings made by Converter.From: %v %q", shell, err, trunc80(stderr)), Kind: "c18from", Replay: map[string]any{"sources": "all"}})
+			continue
+		}
+		for i := range cases {
+			c18Judge(r, shell, cases[i], funcs[i], obs[i], "", false)
+		}
+		r.Evaluations += len(cases)
+		r.Distinct += len(cases)
+	}
+	r.Set("from_seam_source_sequences", len(seqs))
 }
